@@ -494,6 +494,7 @@ def run(ctx: Context) -> None:
     ctx.isolate(r4_simulator_side)
     ctx.isolate(r5_one_worker)
     ctx.isolate(r7_fit_tests)
+    ctx.isolate(c04.r3_deallocate, rule="C01.R8")
     try:
         from . import c10
         ctx.isolate(c10.r1_side_effect_free, rule="C01.R6")
